@@ -23,6 +23,13 @@ srcwt = "%s/%s" % (srcbase, pid)  # where the sub-agent worked (its out*/ direct
 wt = "/tmp/mutv/%s" % pid         # a separate clean worktree used only for confirmation
 dst = "/verif/seeded/%s-%s" % (pid, x)
 os.makedirs(dst, exist_ok=True)
+created_wt = False
+if "--no-confirm" not in sys.argv and not os.path.isdir(os.path.join(wt, ".git")) and not os.path.isfile(os.path.join(wt, ".git")):
+    # the confirmation worktree is scratch: made on demand outside /repo and /verif, removed again at the end
+    os.makedirs(os.path.dirname(wt), exist_ok=True)
+    shutil.rmtree(wt, ignore_errors=True)
+    sh("git -C /repo worktree add --detach %s HEAD" % wt, "/repo")
+    created_wt = True
 out = os.path.join(wt, "out")
 shutil.rmtree(out, ignore_errors=True)
 os.makedirs(out, exist_ok=True)
@@ -118,3 +125,5 @@ if tier != "quick" and os.path.exists(os.path.join(dst, "meta.json")):
     res = dict(old, detected_by=old.get("detected_by", []))
 json.dump(res, open(os.path.join(dst, "meta.json"), "w"), indent=1)
 print(json.dumps({k: res[k] for k in ("property", "variant", "confirmed", "detected_by", "checks")}, indent=1)[:1500])
+if created_wt:
+    sh("git -C /repo worktree remove --force %s" % wt, "/repo")
